@@ -150,6 +150,81 @@ def index_tables(repo):
     return pf, beam
 
 
+REACTION_TERMS = {"reaction[dofs] = K[dofs] @ self._Get_u_n(problemType)": "Ku", "reaction[dofs] += C[dofs] @ self._Get_v_n(problemType)": "Cv",
+                  "reaction[dofs] += M[dofs] @ self._Get_a_n(problemType)": "Ma"}
+
+
+def reaction_table(repo):
+    """`_Simu.Calc_Reaction`: which of K u, C v, M a enter the reaction for every member of AlgoType (the branch tests are
+    evaluated on the enum members read from Solvers.py)"""
+    sim = os.path.join(repo, "EasyFEA", "Simulations")
+    stree = ast.parse(open(os.path.join(sim, "Solvers.py"), encoding="utf-8").read())
+    acls = next((n for n in stree.body if isinstance(n, ast.ClassDef) and n.name == "AlgoType"), None)
+    if acls is None:
+        raise Refuse("AlgoType not found")
+    members = [t.id for st in acls.body if isinstance(st, ast.Assign) for t in st.targets if isinstance(t, ast.Name) and isinstance(st.value, ast.Constant) and isinstance(st.value.value, str)]
+
+    def listed(fname):
+        fn = next((f for f in acls.body if isinstance(f, ast.FunctionDef) and f.name == fname), None)
+        if fn is None or not (isinstance(fn.body[-1], ast.Return) and isinstance(fn.body[-1].value, ast.List) and len([x for x in fn.body if not isinstance(x, ast.Expr)]) == 1):
+            raise Refuse(f"AlgoType.{fname}: not a literal list")
+        out = []
+        for e in fn.body[-1].value.elts:
+            if not (isinstance(e, ast.Attribute) and ast.unparse(e.value) == "AlgoType" and e.attr in members):
+                raise Refuse(f"AlgoType.{fname}: element {ast.unparse(e)}")
+            out.append(e.attr)
+        return out
+
+    hyper = listed("Get_Hyperbolic_Types")
+    tree = ast.parse(open(os.path.join(sim, "_simu.py"), encoding="utf-8").read())
+    cls = next((n for n in tree.body if isinstance(n, ast.ClassDef) and n.name == "_Simu"), None)
+    fn = next((f for f in (cls.body if cls else []) if isinstance(f, ast.FunctionDef) and f.name == "Calc_Reaction"), None)
+    if fn is None:
+        raise Refuse("_Simu.Calc_Reaction not found")
+
+    def algos_of(test):
+        src = ast.unparse(test)
+        if isinstance(test, ast.Compare) and len(test.ops) == 1 and ast.unparse(test.left) == "self.algo":
+            c = test.comparators[0]
+            if isinstance(test.ops[0], ast.Eq) and isinstance(c, ast.Attribute) and ast.unparse(c.value) == "AlgoType" and c.attr in members:
+                return [c.attr]
+            if isinstance(test.ops[0], ast.In):
+                if src == "self.algo in AlgoType.Get_Hyperbolic_Types()":
+                    return list(hyper)
+                if isinstance(c, (ast.Tuple, ast.List)) and all(isinstance(e, ast.Attribute) and ast.unparse(e.value) == "AlgoType" and e.attr in members for e in c.elts):
+                    return [e.attr for e in c.elts]
+        raise Refuse("Calc_Reaction: test not recognised: " + src)
+
+    terms = {m: [] for m in members}
+    seen_base = False
+    for st in fn.body:
+        src = ast.unparse(st)
+        if src in REACTION_TERMS:
+            for m in members:
+                terms[m].append(REACTION_TERMS[src])
+            seen_base = True
+        elif isinstance(st, ast.If) and "self.algo" in ast.unparse(st.test):
+            node, taken = st, set()
+            while True:
+                al = [a for a in algos_of(node.test) if a not in taken]
+                for b in node.body:
+                    bs = ast.unparse(b)
+                    if bs not in REACTION_TERMS:
+                        raise Refuse("Calc_Reaction: statement not recognised: " + bs[:80])
+                    for a in al:
+                        terms[a].append(REACTION_TERMS[bs])
+                taken |= set(al)
+                if len(node.orelse) == 1 and isinstance(node.orelse[0], ast.If):
+                    node = node.orelse[0]
+                    continue
+                if node.orelse:
+                    raise Refuse("Calc_Reaction: else branch not recognised")
+                break
+    if not seen_base:
+        raise Refuse("Calc_Reaction: K u term not found")
+    return members, hyper, terms
+
+
 def write(repo: str, outdir: str) -> dict:
     kin = kinematic_table(repo)
     ss = strain_stress(repo)
@@ -185,6 +260,13 @@ open EasyFEAVerif
                  "(dim, name, column or none when the source raises) -/\n"
                  "def index_Beam : List (Nat × String × Option Nat) := [\n  "
                  + ",\n  ".join(f'({d}, "{n}", {"none" if k is None else "some " + str(k)})' for d, n, k in beam) + "]\n\n")
+    members, hyper, terms = reaction_table(repo)
+    parts.append("/-- members of `AlgoType` and `AlgoType.Get_Hyperbolic_Types()` -/\n"
+                 "def algoTypes : List String := [" + ", ".join(f'"{m}"' for m in members) + "]\n"
+                 "def hyperbolicTypes : List String := [" + ", ".join(f'"{m}"' for m in hyper) + "]\n\n"
+                 "/-- `_Simu.Calc_Reaction`: the terms summed on the constrained rows, per time scheme -/\n"
+                 "def reactionTerms : List (String × List String) := [\n  "
+                 + ",\n  ".join(f'("{m}", [' + ", ".join(f'"{t}"' for t in terms[m]) + "])" for m in members) + "]\n\n")
     parts.append("end EasyFEAVerif.Gen.C16\n")
     _write_if_changed(os.path.join(outdir, "Results.lean"), "".join(parts))
     return dict(simulations=list(kin.keys()) + ["PhaseField.__indexResult", "Beam._indexResult"], names=KIN, beam_names=len(beam))
